@@ -48,15 +48,15 @@ Proof. exact translate_straightline_correct. Qed.
 Print Assumptions C01_graph_eq_python_straightline_partial.
 
 (* the hypotheses are satisfiable on a non-trivial instance (literal operands with casts, re-assigned parameter,
-   duplicate return): 9 nodes, and the source evaluates to values *)
+   tuple assignment, duplicate return): 11 nodes, and the source evaluates to values *)
 Theorem C01_straightline_nonvacuous :
   exists g pre es,
     f_body ex_f = (pre ++ [SReturn es])%list /\ assigns_ok pre = true /\ forallb expr_ok es = true /\
     f_aparams ex_f = [] /\ NoDup (f_tparams ex_f) /\
     translate false [] (fun _ => None) 5 [] ex_f = Some g /\
-    List.length (g_nodes g) = 9 /\
+    List.length (g_nodes g) = 11 /\
     eval_script Z toy_sem (fun z => Some (Z.eqb z 0)) (fun z => Some (Z.to_nat z)) Z.of_nat 10 [] 3 ex_f [5%Z; 3%Z]
-      = Some [(-20)%Z; (-20)%Z; 7%Z].
+      = Some [(-20)%Z; (-20)%Z; 0%Z; 2%Z].
 Proof. exact ex_hyps. Qed.
 Print Assumptions C01_straightline_nonvacuous.
 
@@ -103,6 +103,18 @@ Definition C01_live_in_sound_full : Prop :=
       exists o2, exec_block V sem truth trip of_nat while_limit globals fuel [s] pe2 = Some o2 /\
         match o1, o2 with
         | ONormal _ a, ONormal _ b | OBreak _ a, OBreak _ b => forall x, In x lo -> plookup V a x = plookup V b x
+        | OReturn _ v1, OReturn _ v2 => v1 = v2
+        | _, _ => False
+        end.
+
+Definition C01_exposed_uses_sound_full : Prop :=
+  forall (V : Type) sem truth trip of_nat while_limit globals cic,
+    forall fuel ss live pe1 pe2 o1,
+      (forall x, In x (exposed_block cic ss live) -> plookup V pe1 x = plookup V pe2 x) ->
+      exec_block V sem truth trip of_nat while_limit globals fuel ss pe1 = Some o1 ->
+      exists o2, exec_block V sem truth trip of_nat while_limit globals fuel ss pe2 = Some o2 /\
+        match o1, o2 with
+        | ONormal _ a, ONormal _ b | OBreak _ a, OBreak _ b => forall x, In x live -> plookup V a x = plookup V b x
         | OReturn _ v1, OReturn _ v2 => v1 = v2
         | _, _ => False
         end.
